@@ -134,6 +134,11 @@ def wire_suite(ctx, vh, name, args):
             bad_agree += [small[bbad[k]] for k in ctx.coq_eval_cases("wire_bytes_agree_" + name, HDR, bt, "agree_wire", shard=3)
                           if small[bbad[k]] not in bad_agree]
         ctx.note("wire/%s: %d histories also evaluated on their real bytes" % (name, len(small)))
+    # a frame the reference decoder rejected, or a packet it could not decode, is a failure by itself
+    for i, r in enumerate(rows):
+        if (r.get("parseerr") or any(f.get("err") for f in r["finished"])) and i not in bad_oracle:
+            bad_oracle.append(i)
+    bad_oracle.sort()
     ctx.obligation("oracle:wire/" + name, "oracle", not bad_oracle,
                    "%d histories (%d frames, %d control packets interleaved), %d fail" %
                    (len(rows), sum(len(r["wire"]) for r in rows), nctl, len(bad_oracle)))
